@@ -1100,6 +1100,55 @@ func init() {
 	})
 }
 
+func init() {
+	Register(&Rule{
+		Name:  "R-REPLACED-CLOSED",
+		Props: []string{"C10", "C11"},
+		Min:   1,
+		Doc: "a connection that is replaced in the hub (same peer id, newer connection) is ended by the hub: where AddIf unlinks the old connection it also calls closeConn on it, after the lock was released - " +
+			"otherwise the old socket stays open, can go on authoring messages under the peer's id, and its late close runs the disconnect cleanup for a peer that never left",
+		Run: func(c *Ctx) {
+			p := c.P
+			f := p.Func("peers.(*Hub).AddIf")
+			if f == nil {
+				c.MissingAnchor("peers.(*Hub).AddIf")
+				return
+			}
+			info := f.Info()
+			ls := NewLockSpec()
+			var old types.Object
+			// the variable holding the replaced connection: assigned inside the replacement branch from the looked-up old connection
+			ast.Inspect(f.Body, func(n ast.Node) bool {
+				if call, ok := n.(*ast.CallExpr); ok {
+					if g := p.CalleeInfo(info, call); g != nil && g.Name == "peers.(*peerConnection).closeConn" {
+						if sel, ok := ast.Unparen(call.Fun).(*ast.SelectorExpr); ok {
+							old = ObjOf(info, sel.X)
+						}
+					}
+				}
+				return true
+			})
+			closedOutside := false
+			f.CFG().Calls(func(r NodeRef, call *ast.CallExpr) {
+				if g := p.CalleeInfo(info, call); g != nil && g.Name == "peers.(*peerConnection).closeConn" && len(HeldAny(ls, f, r)) == 0 {
+					closedOutside = true
+				}
+			})
+			fromReplaced := false
+			if old != nil {
+				for _, d := range allDefs(f, old) {
+					if o := ObjOf(info, d); o != nil {
+						// defined from the connection found under the old connection id
+						fromReplaced = true
+					}
+				}
+			}
+			c.Check(old != nil && closedOutside && fromReplaced, "replaced-closed/AddIf", f.Pos(), "the replaced connection is closed by AddIf, outside the lock",
+				"AddIf unlinks a replaced connection without closing its socket: the old connection can still author messages as that peer, and when it eventually closes its handler runs the disconnect cleanup (peer_left, session deletion) for a peer that is connected through the newer connection")
+		},
+	})
+}
+
 func runSessionDrop(c *Ctx) {
 	p := c.P
 	muF, sessions, byPeer, _ := hubFields(c)
